@@ -129,6 +129,7 @@ type observation struct {
 	dOut       int64
 	slow       bool
 	stage2     int
+	stage3     int
 	elapsed    time.Duration
 	dElapsed   time.Duration
 	pulled     int64 // bytes a buffering top layer pulled from the layer below (-1: not measured)
@@ -474,6 +475,73 @@ func runDirect(c *Case, name pdf.Name, pd pdf.Dict, raw []byte, limit int64) (ru
 	return res, consume(c, r, limit, &res)
 }
 
+// jpegFrame is the harness's own, strict reading of a JPEG up to the first
+// scan header: SOI, then marker segments which follow each other without
+// gaps, exactly one frame header (SOFn) among them.  ok is false for
+// anything else (garbage between segments, no or several frame headers,
+// truncated segments), so that the result never depends on how a lenient
+// decoder resynchronises.
+func jpegFrame(b []byte) (precision, height, width, ncomp int, ok bool) {
+	if len(b) < 4 || b[0] != 0xff || b[1] != 0xd8 {
+		return
+	}
+	seen := false
+	i := 2
+	for {
+		if i+4 > len(b) || b[i] != 0xff {
+			return 0, 0, 0, 0, false
+		}
+		m := b[i+1]
+		if m == 0xff { // fill byte
+			i++
+			continue
+		}
+		if m == 0x01 || (m >= 0xd0 && m <= 0xd8) {
+			i += 2
+			continue
+		}
+		if m == 0xd9 || m == 0x00 {
+			return 0, 0, 0, 0, false
+		}
+		l := int(b[i+2])<<8 | int(b[i+3])
+		if l < 2 || i+2+l > len(b) {
+			return 0, 0, 0, 0, false
+		}
+		if m == 0xda {
+			return precision, height, width, ncomp, seen
+		}
+		if m >= 0xc0 && m <= 0xcf && m != 0xc4 && m != 0xc8 && m != 0xcc {
+			if seen || l < 8 {
+				return 0, 0, 0, 0, false
+			}
+			seen = true
+			precision, height, width, ncomp = int(b[i+4]), int(b[i+5])<<8|int(b[i+6]), int(b[i+7])<<8|int(b[i+8]), int(b[i+9])
+		}
+		i += 2 + l
+	}
+}
+
+// jpegFrameBound is oracle 10: DCTDecode is one of the "formats with
+// intrinsic dimensions" whose output the property wants bounded.  The frame
+// header fixes the image: width x height samples of ncomp components (the
+// decoder emits one byte per sample and component: gray, RGB or CMYK), so
+// however many scans follow, a body which starts with this header decodes to
+// at most width*height*ncomp bytes (times the bytes per sample, should a
+// precision above 8 ever be decoded).  A height of 0 (to be defined by a DNL
+// segment) declares no size and is not judged.
+func jpegFrameBound(raw []byte) (int64, bool) {
+	p, h, w, n, ok := jpegFrame(raw)
+	if !ok || h == 0 || w == 0 || n == 0 {
+		return 0, false
+	}
+	return int64(w) * int64(h) * int64(n) * int64(max(1, (p+7)/8)), true
+}
+
+func jpegFrameText(raw []byte) string {
+	p, h, w, n, _ := jpegFrame(raw)
+	return fmt.Sprintf("%d x %d pixels x %d component(s) at %d bits", w, h, n, p)
+}
+
 // pullSlack is what a buffering consumer may read beyond the budget: the one
 // probe byte FilterJBIG2.Decode reads to tell truncation from exhaustion, and
 // room for a read-ahead buffer.
@@ -647,7 +715,9 @@ func classifyErr(what string, err error) error {
 //  8. a progressive JPEG with more full passes than jpeg.maxProgPasses is
 //     rejected (work bound, independent of the clock; see progPassLimit);
 //  9. JBIG2Decode, which buffers its input, pulls at most the stream budget
-//     from the layer below (see runLayered).
+//     from the layer below (see runLayered);
+//  10. DCTDecode never produces more than width x height x components of the
+//     frame header, however many scans follow (see jpegFrameBound).
 func checkCase(c *Case) error {
 	journal(c)
 	c.analyse()
@@ -693,6 +763,14 @@ func checkCase(c *Case) error {
 		return fmt.Errorf("chain ending in %s produced more than %d bytes (%s) from %d bytes of input",
 			lastName, imageBound(lastName), boundName(lastName), len(raw))
 	}
+	// oracle 10 (intrinsic size): see jpegFrameBound
+	plainDCT := !ob.hostileF && len(ob.names) == 1 && ob.names[0] == "DCTDecode"
+	frameBound, hasFrame := jpegFrameBound(raw)
+	if plainDCT && hasFrame && res.out > frameBound {
+		return fmt.Errorf("DCTDecode produced %d bytes for a frame whose header declares %s = %d bytes (%d bytes of input, read result: %v)",
+			res.out, jpegFrameText(raw), frameBound, len(raw), firstErr(res.readErr))
+	}
+
 	// oracle 8 (work): more complete passes over a progressive JPEG than
 	// the documented limit must end in a (malformed) error
 	progOracle := c.ProgScans > progPassLimit+1 && c.Mode == 0 && !ob.hostileF && len(ob.names) == 1 && ob.names[0] == "DCTDecode"
@@ -768,6 +846,10 @@ func checkCase(c *Case) error {
 	if imageFilters[string(name)] && c.Origin != "fuzz" && dres.out > imageBound(string(name)) {
 		return fmt.Errorf("%s produced more than %d bytes (%s) from %d bytes of input", what, imageBound(string(name)), boundName(string(name)), len(raw))
 	}
+	if name == "DCTDecode" && hasFrame && dres.out > frameBound {
+		return fmt.Errorf("%s produced %d bytes for a frame whose header declares %s = %d bytes (%d bytes of input)",
+			what, dres.out, jpegFrameText(raw), frameBound, len(raw))
+	}
 	if c.ProgScans > progPassLimit+1 && c.Mode == 0 && name == "DCTDecode" && dres.openErr == nil && dres.readErr == nil {
 		return fmt.Errorf("%s: progressive JPEG of %d bytes with %d scans over every block decoded to the end: the documented limit is %d passes (jpeg.maxProgPasses)",
 			what, len(raw), c.ProgScans, progPassLimit)
@@ -808,6 +890,33 @@ func errText(err error) string {
 // not mistaken for a missing cap.
 func confirmPeak(c *Case, what string, bound, tripped int64, f func() (runResult, error)) error {
 	c.obs.stage2++
+	// First a cheap measurement: HeapAlloc sampled while the collector runs
+	// with an aggressive setting.  HeapAlloc counts garbage that has not been
+	// swept yet, and on a busy machine the concurrent collector can fall far
+	// behind a decoder that churns through short-lived bitmaps, so a value
+	// above the bound is only a suspicion.  It is confirmed by a second run
+	// in which the sampler forces a full collection before every reading:
+	// what it sees then is memory the decoder really holds.
+	p, err := peakRun(c, what+" (peak measurement)", false, f)
+	if err != nil {
+		return err
+	}
+	if p <= bound {
+		return nil
+	}
+	c.obs.stage3++
+	p, err = peakRun(c, what+" (peak measurement, forced collections)", true, f)
+	if err != nil {
+		return err
+	}
+	if p > bound {
+		return fmt.Errorf("%s: live heap grew by %d bytes (cumulative allocation %d) for %d bytes of input; allowed %d (stream budget %d)",
+			what, p, tripped, c.obs.rawLen, bound, limits.StreamBudget(int64(c.obs.rawLen)))
+	}
+	return nil
+}
+
+func peakRun(c *Case, what string, forceGC bool, f func() (runResult, error)) (int64, error) {
 	old := debug.SetGCPercent(5)
 	defer debug.SetGCPercent(old)
 	runtime.GC()
@@ -821,6 +930,9 @@ func confirmPeak(c *Case, what string, bound, tripped int64, f func() (runResult
 		defer close(done)
 		var ms runtime.MemStats
 		for {
+			if forceGC {
+				runtime.GC()
+			}
 			runtime.ReadMemStats(&ms)
 			if ms.HeapAlloc > peak.Load() {
 				peak.Store(ms.HeapAlloc)
@@ -832,28 +944,25 @@ func confirmPeak(c *Case, what string, bound, tripped int64, f func() (runResult
 			}
 		}
 	}()
-	wd.begin(c, what+" (peak measurement)")
+	wd.begin(c, what)
 	err := vt.Guard(func() error {
 		_, e := f()
 		return e
 	})
 	wd.end()
-	// what the decoder held until the end is garbage now, but not yet swept
-	runtime.ReadMemStats(&m)
-	if m.HeapAlloc > peak.Load() {
-		peak.Store(m.HeapAlloc)
+	if !forceGC {
+		// what the decoder held until the end is garbage now, but not yet swept
+		runtime.ReadMemStats(&m)
+		if m.HeapAlloc > peak.Load() {
+			peak.Store(m.HeapAlloc)
+		}
 	}
 	close(stop)
 	<-done
 	if err != nil {
-		return err
+		return 0, err
 	}
-	p := int64(peak.Load()) - int64(base)
-	if p > bound {
-		return fmt.Errorf("%s: live heap grew by %d bytes (cumulative allocation %d) for %d bytes of input; allowed %d (stream budget %d)",
-			what, p, tripped, c.obs.rawLen, bound, limits.StreamBudget(int64(c.obs.rawLen)))
-	}
-	return nil
+	return int64(peak.Load()) - int64(base), nil
 }
 
 // ---------------------------------------------------------------------------
@@ -956,6 +1065,20 @@ func classify(c *Case) (bool, []string) {
 			}
 		}
 	}
+	if len(ob.names) == 1 && ob.names[0] == "DCTDecode" {
+		if _, _, _, _, ok := jpegFrame(c.Body); ok {
+			add("jpeg-frame-bound-judged")
+		}
+	}
+	for _, tag := range c.Tags {
+		if strings.HasSuffix(tag, "-multi-scan") && strings.HasPrefix(tag, "jpeg/") {
+			if ob.readErr != "" || ob.openErr != "" {
+				add("jpeg/extra-scan-rejected")
+			} else if ob.eof {
+				add("jpeg/extra-scan-decoded")
+			}
+		}
+	}
 	if c.ProgScans > 0 {
 		switch {
 		case strings.Contains(ob.readErr+ob.openErr, "excessive progressive"):
@@ -1004,6 +1127,9 @@ func classify(c *Case) (bool, []string) {
 	}
 	if ob.stage2 > 0 {
 		add("alloc-peak-measured")
+	}
+	if ob.stage3 > 0 {
+		add("alloc-peak-suspect-cleared-by-forced-collections")
 	}
 	if ob.rawLen >= 100<<10 {
 		add("raw>=100KiB")
